@@ -132,7 +132,11 @@ def run_case(case):
         if not np.max(e) <= 1e-12 * max(1.0, vol):
             i = int(np.argmax(e))
             fails.append(fail("hat_integral", "hat %r: %r, exact %r" % (Bs[i], res[i], exact[i]), key))
-        lat = [tuple(al[k] + t * (bl[k] - al[k]) for k, t in enumerate(p)) for p in itertools.product(LATTICE_1D, repeat=d)]
+        # off-grid points, points on grid lines and points exactly on the faces / corners of the domain
+        frac = LATTICE_1D if d == 3 else [0.0, 0.1, 1 / 3, 0.5, 0.6, 0.85, 1.0]
+        lat = [tuple(al[k] + t * (bl[k] - al[k]) for k, t in enumerate(p)) for p in itertools.product(frac, repeat=d)]
+        if d == 3:
+            lat += [tuple(al), tuple(bl), (al[0], 0.5 * (al[1] + bl[1]), bl[2])]
         got = np.asarray(sc(lat))
         want = np.array([[hats.ev(h, p) for h in Bs] for p in lat])
         e = np.abs(got - want)
